@@ -24,7 +24,9 @@ RULE = ("Enumeration: every string of length <= 3 (quick) / <= 4 (thorough) over
         "head/tail lists, all pairs of single symbols) with a gene in between that has results but no modules "
         "(docking/COM domains only, ab-motif hits only, both), on +++ and ---, and every fragment pair whose upstream "
         "gene also holds the tail's first 1-2 profiles at the tail's protein coordinates (different hits: scores "
-        "differ per gene). "
+        "differ per gene); directly and through generate_domains a complete loading module of every loader kind "
+        "(A, A-OX, AT, CAL x ACP, PCP, PKS_PP; bare, behind Interface / X, followed by TE / a new module) at the "
+        "start of the downstream gene behind every single symbol and every head fragment, ++ and --. "
         "Random: Hypothesis strings of length 0-14 over all 60 profile names with KS subtypes (none, the five "
         "ksdomains.hmm names, a nested transATor name, two ambiguous internal hits), start positions increasing "
         "with equal-start ties and shuffled input order as classes; a mixture of uniform strings, strings made of "
@@ -46,6 +48,8 @@ ASSUMPTIONS = [
     "a split between consecutive modules is judged against a reference state machine of that layout (explicit starter, "
     "or the next domain cannot extend the module); the reverse direction (a missing split) is judged by the layout "
     "rules of the statement only",
+    "a complete leading module may take part in a merge only when it opens with an adenylation, acyltransferase or "
+    "Interface domain (the documented fused starters, frozen here; CAL_domain and SAT are explicit starters)",
     "merging is emulated exactly as generate_domains calls combine_modules (argument order chosen by the strand of the "
     "later gene); the pipeline subcheck runs generate_domains itself with the three HMMER front ends replaced",
 ]
